@@ -262,8 +262,11 @@ def main():
             n_lines += stats["lines"]
             n_nontrivial += stats["distinct_nontrivial"]
             if seqs:
-                first = suite.run_real(seqs[min(len(seqs) - 1, 3)])
-                samples.append({"suite": sname, "requests": [p[0][:160] for p in first[:6]]})
+                try:
+                    first = suite.run_real(seqs[min(len(seqs) - 1, 3)])
+                    samples.append({"suite": sname, "requests": [p[0][:160] for p in first[:6]]})
+                except Exception:  # noqa: BLE001 - already recorded by run_suite as an unobservable sequence
+                    pass
             rel = [d for d in dis if relevant(d, facets)]
             for d in rel[:3]:
                 d = core.shrink(suite, d, flat_facets(facets), accept=accept)
@@ -354,10 +357,13 @@ def main():
 
 def fact_matters(pid, fact):
     """does property pid depend on the extracted fact? (through the structures its suites exercise)"""
-    from props import FACT_USERS, GUARD_INDEPENDENT
+    from props import FACT_EXTRA_PROPS, FACT_USERS, GUARD_INDEPENDENT
 
     if fact.endswith("Cmp") and pid in GUARD_INDEPENDENT:
         return False
+    for prefix, pids in FACT_EXTRA_PROPS.items():
+        if fact.startswith(prefix) and pid in pids:
+            return True
     suites = {name for name, _ in PROPS[pid]["suites"]}
     for prefix, users in FACT_USERS.items():
         if fact.startswith(prefix):
@@ -378,6 +384,8 @@ def relevant_line(line, diff_facets, rules):
 
 
 def relevant(d, rules):
+    if d.line == "<observation failed>":
+        return True  # the implementation could not be observed at all on that sequence
     return relevant_line(d.line, d.facets, rules)
 
 
